@@ -148,12 +148,21 @@ def plain(t, v):
     if k in ('Bv', 'Bl'):
         return bytes.fromhex(v[1:])
     if k in ('vec', 'list'):
-        return [plain(t[1], x) for x in v[1:]]
+        # plain python values only for basic elements: `cls(*v)` makes nested plain lists ambiguous
+        # (a one-element list of lists is taken as the element list itself) - composite elements are views
+        if isinstance(t[1], str):
+            return [plain(t[1], x) for x in v[1:]]
+        return [mk_val(t[1], x) for x in v[1:]]
     if k == 'cont':
         T = mk_type(t)
         if len(v) - 1 != len(t) - 1:
             raise ValueError("field count")
-        return T(**{'f%d' % i: plain(ft, x) for i, (ft, x) in enumerate(zip(t[1:], v[1:]))})
+
+        def field(ft, x):
+            if isinstance(ft, str) or kind(ft) in ('Bv', 'Bl', 'bv', 'bl') or (kind(ft) in ('vec', 'list') and isinstance(ft[1], str)):
+                return plain(ft, x)
+            return mk_val(ft, x)
+        return T(**{'f%d' % i: field(ft, x) for i, (ft, x) in enumerate(zip(t[1:], v[1:]))})
     if k == 'union':
         return mk_val(t, v)
     raise ValueError(k)
